@@ -74,8 +74,16 @@ def check_dialogue(P, vtag, all_metrics, answers, target=None, version_arg=None,
             P.violation("self-accept", "C16:v%s:%s:class-rejects-returned-vector:%s" % (vtag, mode, obs.exc_name(o)), case,
                         returned=r["ret"])
         P.ev("outcome-model")
-        outs = M.simulate(ver, ms, answers)
-        if (tuple(fields), r["reads"]) in outs:
+        # question order: established experimentally (DLG.question_order); neither the prompts
+        # nor the field order of the returned vector are assumed to reveal it
+        qorder, _probe = DLG.question_order(vtag, all_metrics)
+        if qorder is None or set(qorder) != expected:
+            qorder = ms
+            P.stratum("order-witness:returned-vector-fallback")
+        outs = M.simulate(ver, qorder, answers)
+        got = dict(fields)
+        outs = set((tuple((m, got_v) for m, got_v in o_[0]) if o_[0] is not None else None, o_[1]) for o_ in outs)
+        if any(o_[0] is not None and dict(o_[0]) == got and o_[1] == r["reads"] for o_ in outs):
             P.stratum("%s:%s:completed" % (vtag, mode))
             for m, v in fields:
                 P.addset("selected_%s_%s" % (vtag, mode), [(m, v)])
@@ -84,19 +92,19 @@ def check_dialogue(P, vtag, all_metrics, answers, target=None, version_arg=None,
         if not done:
             P.violation("outcome-model", "C16:v%s:%s:returned-although-answers-run-out%s" % (vtag, mode, tk), case, returned=r["ret"])
             return
-        if any(o_[0] == tuple(fields) for o_ in done):
+        if any(dict(o_[0]) == got for o_ in done):
             P.violation("outcome-model", "C16:v%s:%s:number-of-reads-differs" % (vtag, mode), case, reads=r["reads"],
                         model=sorted(o_[1] for o_ in done))
             return
         mf, first = None, -1
         for o_ in done:
-            d_ = [i for i in range(len(fields)) if fields[i] != o_[0][i]]
+            d_ = [i for i in range(len(o_[0])) if got.get(o_[0][i][0]) != o_[0][i][1]]
             if d_ and d_[0] > first:
                 mf, first = o_[0], d_[0]
-        m = fields[first][0]
+        m = mf[first][0]
         # was the model's answer rejected (legal answer rejected) or an illegal one accepted?
         P.violation("outcome-model", "C16:v%s:%s:answer-handling-differs-from-model:%s%s" % (vtag, mode, m, tk), case,
-                    returned=r["ret"], model=T.spell(prefix, list(mf)), first_difference=[fields[first], mf[first]])
+                    returned=r["ret"], model=T.spell(prefix, list(mf)), first_difference=[[m, got.get(m)], list(mf[first])])
         return
     # EOF
     P.ev("eof")
@@ -120,15 +128,14 @@ def check_dialogue(P, vtag, all_metrics, answers, target=None, version_arg=None,
     r2 = DLG.run_dialogue(vtag, all_metrics, ext, limit=len(ext) + 5)
     f2 = M.parse_return(ver, prefix, r2["ret"]) if r2["ret"] is not None else None
     if f2:
-        mo = [o_ for o_ in M.simulate(ver, [m for m, _ in f2], ext) if o_[0] is not None]
+        mo = [o_ for o_ in M.simulate(ver, order, ext) if o_[0] is not None]
+        g2 = dict(f2)
         best = -1
         for o_ in mo:  # nondeterministic (padded answers): take the outcome agreeing longest
-            if len(o_[0]) != len(f2):
-                continue
-            diff = [i for i in range(len(f2)) if f2[i] != o_[0][i]]
+            diff = [i for i in range(len(o_[0])) if g2.get(o_[0][i][0]) != o_[0][i][1]]
             if diff and diff[0] > best:
                 best = diff[0]
-                where = f2[diff[0]][0]
+                where = o_[0][diff[0]][0]
     P.violation("eof", "C16:v%s:%s:eof-although-answers-suffice:legal-answer-rejected-for-%s" % (vtag, mode, where), case,
                 model=T.spell(prefix, list(sorted(outs)[0][0])))
 
